@@ -102,6 +102,7 @@ struct Ctx {
 	bool binary;
 	std::uint64_t seed;
 	Obs A, B;         // observables of the original / of the restored object
+	std::string note; // optional extra output of the case (no blanks), appended to the result line as " note=<...>"
 	Ctx(bool bin, std::uint64_t sd) : binary(bin), seed(sd) {}
 
 	// write `a` into an archive of the requested format, read it into `b`
@@ -136,6 +137,7 @@ void registerData(std::vector<Case>&);
 void registerOpt(std::vector<Case>&);
 void registerExtra(std::vector<Case>&);
 void registerMoo(std::vector<Case>&);
+void registerStream(std::vector<Case>&);
 
 } // namespace c18
 #endif
